@@ -1,5 +1,5 @@
 // C11 — CrossSections are regularised; 2D Booleans compute the set operation
-// (DESIGN.md §4 C11).   geom2d-rev: 1
+// (DESIGN.md §4 C11).   geom2d-rev: 2
 //
 // Oracle: integer winding numbers (exact orientation predicate) of the INPUT
 // contours, folded through the fill rule / set formula, compared with the
@@ -92,6 +92,23 @@ Outcome observe(vh::Ctx& c, const Check& k, const CrossSection& res) {
   c.maxi("max_result_edges", (long long)outS.size());
   c.maxi("max_input_edges", (long long)inS.size());
 
+  // --- simple: no contour passes twice through the same point (exact coordinates). Transform results are
+  // exempt (a singular transform collapses contours without re-regularising; only counted).
+  for (const auto& ring : o.polys) {
+    std::vector<std::pair<double, double>> v;
+    for (const vec2& p : ring) v.push_back({p.x, p.y});
+    std::sort(v.begin(), v.end());
+    auto it = std::adjacent_find(v.begin(), v.end());
+    if (it == v.end()) continue;
+    if (k.kind.rfind("xform", 0) == 0) {
+      c.count("xform_results_with_repeated_vertex");
+      break;
+    }
+    vh::J j;
+    j.raw("vertex", g2::ptJson(vec2(it->first, it->second)));
+    fail("regular:repeated-vertex-in-contour:" + k.kind, j);
+    return o;
+  }
   // --- simple / non-crossing: no two result edges cross deeper than the band
   {
     g2::Crossing x = g2::deepCrossing(outS, o.band);
@@ -727,6 +744,12 @@ bool latticeCompare(vh::Ctx& c, const CrossSection& cs, const Mask& m, int N, do
   for (const auto& ring : P) {
     const size_t n = ring.size();
     if (n < 3) return fail("ring-with-fewer-than-3-vertices", "");
+    {
+      std::vector<std::pair<double, double>> v;
+      for (const vec2& q : ring) v.push_back({q.x, q.y});
+      std::sort(v.begin(), v.end());
+      if (std::adjacent_find(v.begin(), v.end()) != v.end()) return fail("repeated-vertex-in-contour", "");
+    }
     for (size_t q = 0; q < n; q++) {
       const vec2 a = ring[q] - vec2(ox, oy), b = ring[(q + 1) % n] - vec2(ox, oy);
       if (a.x != std::floor(a.x) || a.y != std::floor(a.y) || a.x < 0 || a.y < 0 || a.x > N || a.y > N)
